@@ -74,6 +74,9 @@ def strategy_(draw, tier):
             lines[q] = lines[q] + "\tzr:Z:" + "j" * pads[q]
         for q in range(k_ + 1, len(lines)):
             lines[q] = lines[q] + "\tzq:Z:" + "k" * draw(st.integers(0, 9000))
+    if draw(st.integers(0, 3)) == 0:
+        k2 = draw(st.integers(0, len(lines) - 1))
+        lines[k2] = lines[k2] + " "  # a padded line: readers strip trailing blanks, for every kind of input
     size = sum(len(l) + 1 for l in lines)
     cuts = sorted(set(draw(st.lists(st.integers(1, size - 1), min_size=1, max_size=6))))
     ids = list(g["nodes"])
@@ -255,6 +258,23 @@ def run_case(case):
                     k = next((i for i, (x, y) in enumerate(zip(a, b)) if x != y), min(len(a), len(b)))
                     raise core.Violation("%s differs between plain/plain and %s GAF / %s graph: ...%s vs ...%s"
                                          % (name, gk, fk, a[max(0, k - 60):k + 120], b[max(0, k - 60):k + 120]))
+        # plain file and its BGZF copy side by side, indexed with the default index name, queried without -i
+        sd = d + "/same"
+        gaf_p, gfa_p, _ = write_variant(sd, case, "plain", "plain")
+        gaf_z, _, _ = write_variant(sd, case, "bgzf", "plain")
+        from gaftools.cli import index as _index
+
+        r1 = core.call(_index.run, gaf_p, gfa_p)
+        r2 = core.call(_index.run, gaf_z, gfa_p)
+        core.check(r1[0] == "ok" and r2[0] == "ok", "index with the default output name failed: %s %s", r1, r2)
+        resp, outp = idx.run_view(sd, gaf_p, gfa_p, sd + "/vp.txt", nodes=case["nodes"])
+        resz, outz = idx.run_view(sd, gaf_z, gfa_p, sd + "/vz.txt", nodes=case["nodes"])
+        core.check((resp[0], outp) == (resz[0], outz),
+                   "view -n with default index names differs between a plain GAF and its BGZF copy in the same directory: %s %r vs %s %r",
+                   resp, (outp or [])[:2], resz, (outz or [])[:2])
+        want_n = base.get("view -n")
+        if isinstance(want_n, tuple) and want_n[0] in ("ok", "cle"):
+            core.check((resp[0], outp) == (want_n[0], want_n[1]), "view -n with the default index name differs from view -n -i <index>")
     cl = ["tools:%d" % len(base)] + ["baseline_failure:" + n for n in failed]
     starts = []
     pos = 0
@@ -282,4 +302,6 @@ def run_case(case):
         cl.append("record_ends_on_64KiB_or_block_boundary")
     if not case["gfa"].endswith("\n"):
         cl.append("graph_without_final_newline")
+    if any(l.endswith(" ") for l in case["gaf"]):
+        cl.append("line_with_trailing_blank")
     return core.Result(after and straddle, cl)
